@@ -1,5 +1,6 @@
 import Mathlib.Analysis.SpecialFunctions.Gaussian.GaussianIntegral
 import Mathlib.MeasureTheory.Measure.Haar.InnerProductSpace
+import Mathlib.MeasureTheory.Integral.Pi
 import Flowjaxv.Proofs.MassFlow
 import Flowjaxv.Proofs.Leaves
 import Flowjaxv.Proofs.Rqs
@@ -436,6 +437,24 @@ theorem stdNormal_normalised {C K : Type} (s : K → C → ℝ) (c : C) :
   rw [show Real.pi / (1 / 2) = 2 * Real.pi by ring]
   exact inv_mul_cancel₀ hs.ne'
 
+/-- `StandardNormal((n,))` as a `Distn` record on `ℝⁿ = Fin n → ℝ`: its `_log_prob` is the SUM over the coordinates of the
+GENERATED scalar kernel (`sum_dims`, C05 `family_sum_dims`); the sampler is left abstract (`s`). Used by the non-vacuity
+instances of the d-dimensional theorems. -/
+noncomputable def stdNormalN (n : ℕ) {C K : Type} (s : K → C → Fin n → ℝ) : Distn (Fin n → ℝ) C K ℝ :=
+  ⟨fun x _ => ∑ i, StandardNormal.logProb (x i), s, fun k c => (s k c, ∑ i, StandardNormal.logProb (s k c i))⟩
+
+theorem stdNormalN_normalised (n : ℕ) {C K : Type} (s : K → C → Fin n → ℝ) (c : C) :
+    ∫ z, Real.exp ((stdNormalN n s).logProb z c) = 1 := by
+  have e : ∀ z : Fin n → ℝ, Real.exp ((stdNormalN n s).logProb z c)
+      = ∏ i : Fin n, Real.exp ((stdNormal (C := C) (K := K) (fun _ _ => 0)).logProb (z i) c) := by
+    intro z
+    show Real.exp (∑ i, StandardNormal.logProb (z i)) = ∏ i : Fin n, Real.exp (StandardNormal.logProb (z i))
+    rw [Real.exp_sum]
+  simp_rw [e]
+  rw [MeasureTheory.integral_fintype_prod_volume_eq_prod
+    (fun (_ : Fin n) (x : ℝ) => Real.exp ((stdNormal (C := C) (K := K) (fun _ _ => 0)).logProb x c))]
+  simp [stdNormal_normalised]
+
 end base
 
 /-- a hand-written d-dimensional layer (isotropic scaling `x ↦ a • x`, log-det `n log |a|`) used only to show
@@ -443,6 +462,8 @@ that the d-dimensional hypotheses are satisfiable by a non-identity map -/
 noncomputable def scaleBij (n : ℕ) (C : Type) (a : ℝ) : Bij (EuclideanSpace ℝ (Fin n)) C ℝ :=
   ⟨fun x _ => a • x, fun y _ => a⁻¹ • y, fun x _ => (a • x, n * Real.log |a|),
    fun y _ => (a⁻¹ • y, -(n * Real.log |a|))⟩
+
+
 
 
 end Mass
